@@ -1272,6 +1272,12 @@ class Interp:
                 self.ctx.log, self.ctx.exits, self.generic_loop = saved_log, saved_exits, saved_loop
             for n in carried:
                 set_var(env, n, VOpaque(f"after_loop:{n}"))
+            if not sub_log and len(sub_exits) == 1 and sub_exits[0][0] == "try" and isinstance(sub_exits[0][1], str) \
+                    and (base.path + "[*]") in sub_exits[0][1]:
+                # `for x in xs { .. f(x)? .. }` whose only effect is the `?` on a fallible function of the element: the same early exit as
+                # `xs.iter().map(f).collect::<Result<Vec<_>, _>>()?` (first failing element, in order) - ONE normal form for both spellings
+                self.ctx.exits.append(("try", f"collected(map_each({base.path}, {sub_exits[0][1]}))"))
+                return UNIT
             if sub_log or sub_exits:        # a loop without trace effects leaves no event (same as the `for_each` form)
                 self.ctx.event("for_each_in_order", base.path, sub_log, sub_exits)
             return UNIT
@@ -2238,6 +2244,8 @@ class Interp:
             return recv
         if isinstance(recv, VSymIter) and not args and m in ("max", "min", "count"):
             return VOpaque(m, [recv.sym])
+        if isinstance(recv, VSymIter) and not args and m == "len" and not getattr(recv, "pending", None):
+            return VOpaque("len", [recv.sym])         # ExactSizeIterator::len of a symbolic sequence
         if isinstance(recv, VSymIter) and not args and m in ("sum", "product") and ("." + m) not in self.contracts:
             # a reduction over a collection of unknown length has no closed form here: an UNKNOWN value (a code-side unknown facing an
             # exact contract value is UNDECIDED, never a difference) - the function's exits and effects are still compared exactly
@@ -3558,6 +3566,10 @@ def _norm_value(v):
     if isinstance(v, VArr) and len(v.items) == 1 and isinstance(v.items[0], VOpaque) and v.items[0].name == "for_each_pushed" and len(v.items[0].args) == 2:
         base, body = v.items[0].args
         ident = isinstance(body, (Sym, VOpaque, Poly)) and canon(body) == canon(base) + "[*]"
+        if isinstance(body, VOpaque) and body.name == "ok_of" and len(body.args) == 1:
+            # every element went through `f(x)?`: the vector of the Ok payloads IS the Ok payload of collecting the fallible results
+            # (`collect::<Result<Vec<_>, _>>()?`)
+            return VOpaque("ok_of", [VOpaque("collected", [Sym(VOpaque("map_each", [base, body.args[0]]).canon())])])
         return VOpaque("collected", [base if ident else Sym(VOpaque("map_each", [base, body]).canon())])
     if isinstance(v, VStruct):
         return VStruct(v.name, {k: _norm_value(x) for k, x in v.fields.items()})
